@@ -10,6 +10,8 @@ META = {
     'level': 'other',
     'configs': {'quick': ['default'], 'thorough': ['default', 'norayon', 'default_nodebug']},
     'rules': {
+        'R7': 'both sides are cut against the same candidate set (C01.R1): the builder hands every item of the candidate stream — including images of its own generator — to the '
+              'clip routine unless the termination test ends the loop; a candidate filtered on one side only leaves a face without its reciprocal',
         'R1': 'construction table: a VoronoiFace is created for plane k of constructed cell i  <=>  V and (not(RS and SN) or right > i or (mask present and not mask[right])), '
               'at most once per plane, and all created faces are stored in plane order',
         'R2': 'symmetric-integral table: plane k is reported by compute_face_integrals_sym  <=>  V and not(SN and RS and right < i and mask[right]); equals R1 with the mask '
@@ -33,7 +35,7 @@ def run(ctx):
     for cfg in ctx.configs_used:
         F = ctx.facts(cfg)
         sfx = '' if cfg == 'default' else '@' + cfg
-        for fn in (r1, r2, r3, r4, r5, r6):
+        for fn in (r1, r2, r3, r4, r5, r6, r7):
             rule = 'C03.' + fn.__name__.upper()
             ctx.guarded(rule, 'evaluate' + sfx, lambda: fn(ctx, F, rule, sfx))
 
@@ -318,3 +320,8 @@ def r6(ctx, F, rule, sfx):
             t = repr(s.tet)
             okv = a[1:4] == ['%s.vertices[%d]' % (t, i) for i in range(3)] and a[4] == 'cell.loc'
             ctx.check(rule, '%s:triangle-of-this-tetrahedron%s' % (which, sfx), okv, ', '.join(x[-24:] for x in a[1:5]), 'tet.vertices[0..2], cell.loc', where(e.body, e.line), key_extra='collectargs')
+
+
+def r7(ctx, F, rule, sfx):
+    from . import c01
+    c01.r1(ctx, F, rule, sfx)
